@@ -16,6 +16,7 @@ R11.3  PSBT satisfier preimage look-ups with preimages of length 0, 31, 32, 33
 R11.4  the parser's pre-check bounds nesting: depth 402 accepted, 403 refused, before any tree is built
 R11.7  spent-output look-ups of the finalizer / sighash_msg over utxo presence x previous-transaction size x vout
 R11.8  DescriptorPublicKey::from_str on near-valid key expressions
+R11.9  ExtData.tree_height (the only bound on parenthesis-free wrapper chains) equals the fragment's depth
 R11.6  script decoder: every single-instruction mutation of every family script and all tiny scripts (props/decoder.py)
 R11.5  recursion reachable from the text / script / PSBT entry points is confined to the audited functions whose depth
        is bounded by the pre-check (call-graph SCCs over MIR)"""
@@ -422,6 +423,77 @@ def check_key_parsers(chk, F):
     chk.floor(R, "malformed key expressions", n, 4000)
 
 
+# ---- R11.9 tree-height accounting (what bounds parenthesis-free nesting) ------------------------------------------------
+
+def _height_work(args):
+    from .. import facts, textmodel as tm
+    from . import c06
+    X = c13.X
+    F = facts.load()
+    ctx, texts = args
+    T_ = c06.Typer(F)
+    st = "miniscript::private::Miniscript<std::string::String, %s>" % c06.CTX[ctx]
+
+    def height(n):
+        return 0 if not n.kids else 1 + max(height(k) for k in n.kids)
+    out, n_ok = [], 0
+    for text in texts:
+        try:
+            tr = tm.parse_tree(F, T_.m, text)
+            if tr.variant != "Ok":
+                continue
+            ri = T_.m.call_path(T_.root, [tr.fields["0"]])
+            r = T_.m.call_callee({"def": "expression::FromTree::from_tree", "resolved": T_.ft, "name": "from_tree",
+                                  "trait": "expression::FromTree",
+                                  "resolved_container": "miniscript::<impl expression::FromTree for miniscript::private::Miniscript<Pk, Ctx>>",
+                                  "self_ty": st, "targs": [st]}, [ri])
+            if not (isinstance(r, Adt) and r.variant == "Ok"):
+                continue
+            got = r.fields["0"].fields["ext"].fields["tree_height"]
+            want = height(X.parse(text))
+            n_ok += 1
+            if got != want:
+                out.append((ctx, text, "tree_height %r, the fragment is %d levels deep" % (got, want)))
+        except Unsupported as e:
+            out.append((ctx, text, "unanalysable: %s" % e))
+            break
+        except Panic as e:
+            out.append((ctx, text, "panic: %s" % e))
+    return ctx, n_ok, out
+
+
+def check_tree_height(chk, F):
+    import multiprocessing as mp
+    from . import c06
+    R = "R11.9"
+    chk.rule(R, "nesting that carries no parentheses (wrapper chains such as jjj..:X) is bounded only by the tree height the type "
+                "checker records, which Miniscript::from_ast / validate compare with the depth limit: for ~1600 typed fragments "
+                "(every wrapper over every leaf, chains, every combinator) ExtData.tree_height is exactly the depth of the "
+                "fragment (leaf 0, every wrapper and combinator one more than its deepest child)")
+    jobs = []
+    for ctx in ("segwitv0", "tap"):
+        cs = c06.candidates(ctx, "quick")
+        extra = ["%s:pk(A)" % (w * k) for w in "jnvc" for k in (3, 6)] + ["%s:older(5)" % ("lu" * k) for k in (2, 4)] + \
+                ["and_v(v:pk(A),%s:pk(B))" % ("n" * 5), "thresh(2,pk(A),s:pk(B),s%s:pk(C))" % ("n" * 4)]
+        cs = cs + extra
+        for i in range(8):
+            jobs.append((ctx, cs[i::8]))
+    with mp.Pool(min(16, os.cpu_count() or 4)) as pool:
+        res = pool.map(_height_work, jobs, chunksize=1)
+    total = 0
+    bad = []
+    for ctx, n_ok, out in res:
+        total += n_ok
+        bad += out
+    un = [b for b in bad if b[2].startswith("unanalysable")]
+    for b in un[:3]:
+        chk.fail(R, "unanalysable:%s|%s" % (b[0], b[1]), b[2], kind="unanalysable")
+    real = [b for b in bad if not b[2].startswith("unanalysable")]
+    chk.obligation(R, not real, "tree_height", "%d fragment(s); first: [%s] %s: %s" % ((len(real),) + (real[0] if real else ("", "", ""))),
+                   where="src/miniscript/types/extra_props.rs", detail=real[:10])
+    chk.floor(R, "typed fragments measured", total, 1200)
+
+
 # ---- R11.4 depth pre-check --------------------------------------------------------------------------------------
 
 def check_depth(chk, F):
@@ -602,3 +674,5 @@ def run(chk):
         chk.guard("R11.7", "utxo-lookups", check_utxo_lookups, chk, F)
     if not ONLY or "8" in ONLY:
         chk.guard("R11.8", "key-parsers", check_key_parsers, chk, F)
+    if not ONLY or "9" in ONLY:
+        chk.guard("R11.9", "tree-height", check_tree_height, chk, F)
